@@ -3,6 +3,7 @@
 set -e
 cd "$(dirname "$0")/.."
 b=$1; shift
+git add -A; git commit -qm "wip before merge" 2>/dev/null || true
 cp KNOWN_FINDINGS.json /var/tmp/kf_main.json
 cp .gitignore /var/tmp/gi_main
 git merge --no-edit -X theirs "$b" || { echo "MERGE CONFLICT"; git status --short | head; exit 1; }
